@@ -49,7 +49,16 @@ TemplateLine(t) ==
         norm |-> EqView(Norm(t)),
         indomain |-> t \in Templates,
         renders |-> [i \in 1..Len(PropSeq) |->
-                        [text |-> Render(t, PropSeq[i]), events |-> Events(t, PropSeq[i])]]])>>)
+                        [text |-> Render(t, PropSeq[i]), events |-> Events(t, PropSeq[i]),
+                         via |-> [ch \in RenderChannels |-> RenderVia(ch, t, PropSeq[i])]]],
+        tplvia |-> [ch \in TemplateChannels |-> TemplateVia(ch, t)],
+        literal |-> AsLiteral(t)])>>)
+
+\* every channel gives the rendered text (Debug: quoted), whatever the split
+ChannelsAgree ==
+    \A i \in 1..Len(PropSeq) : \A ch \in RenderChannels \ {"debug"} :
+        /\ RenderVia(ch, a, PropSeq[i]) = Render(a, PropSeq[i])
+        /\ (Norm(a) = Norm(b) => RenderVia(ch, a, PropSeq[i]) = RenderVia(ch, b, PropSeq[i]))
 
 \* ---- macro literals (emit::tpl!, emit::evt!, emit::emit!): a literal is a sequence of tokens
 \*   c: a character   eo: `{{`   ec: `}}`   h: a hole in one of the forms
